@@ -10,6 +10,8 @@ git -C /repo worktree add -f --detach "$wt" HEAD >/dev/null 2>&1 || exit 2
 cleanup() { git -C /repo worktree remove --force "$wt" >/dev/null 2>&1; rm -rf "$wt"; }
 trap cleanup EXIT
 cd "$wt" || exit 2
+# some demos keep their scratch files in the author's output directory
+for dd in $(grep -oh '/tmp/mut/[A-Za-z0-9_]*\.out' "$src"/demo.* 2>/dev/null | sort -u); do mkdir -p "$dd"; done
 make -s >/dev/null 2>&1 || { echo "build of original failed"; exit 2; }
 gcc -std=gnu99 -g -w -I"$wt/include" "$src/demo.c" "$wt/libCello.a" -lpthread -lm -o "$wt/demo" || { echo "demo does not build"; exit 2; }
 timeout 20 ./demo >/tmp/vs-$$.o1 2>&1; r1=$?
